@@ -102,6 +102,21 @@ func project(v *cluster.ClusterView) map[string]proj {
 	return out
 }
 
+// identString is the membership with each member's incarnation spelled out to the record that represents it:
+// (generation, logical clock, start stamp). Two records of one member can agree in generation and logical clock and
+// still belong to different incarnations (a node that was evicted everywhere and restarted starts over at the same
+// numbers); the order-insensitivity laws are about which record the merge ends up with, whatever rule picks it.
+func identString(v *cluster.ClusterView) string {
+	var ks []string
+	for k, m := range v.Members {
+		if m != nil {
+			ks = append(ks, fmt.Sprintf("%s:g%d,c%d,t%d", k, m.Generation, m.LogicalClock, m.Timestamp))
+		}
+	}
+	sort.Strings(ks)
+	return strings.Join(ks, " ")
+}
+
 func projString(p map[string]proj) string {
 	var ks []string
 	for k := range p {
@@ -311,6 +326,9 @@ func TestC17MergeLaws(t *testing.T) {
 		if bothNonEmpty && projString(pab) != projString(pba) {
 			f.fail("commutative", "merge(A,B) gives [%s], merge(B,A) gives [%s]", projString(pab), projString(pba))
 		}
+		if bothNonEmpty && identString(ab) != identString(ba) {
+			f.fail("commutative|incarnation", "merge(A,B) keeps the records [%s], merge(B,A) keeps [%s]: which incarnation of a member survives depends on the merge order", identString(ab), identString(ba))
+		}
 		// union at the lexicographic maximum
 		if len(B.Members) > 0 {
 			want := map[string]proj{}
@@ -347,6 +365,9 @@ func TestC17MergeLaws(t *testing.T) {
 			abc2, _ := merged(A, bc, opts)
 			if projString(project(abc1)) != projString(project(abc2)) {
 				f.fail("associative", "(A+B)+C gives [%s], A+(B+C) gives [%s]", projString(project(abc1)), projString(project(abc2)))
+			}
+			if identString(abc1) != identString(abc2) {
+				f.fail("associative|incarnation", "(A+B)+C keeps the records [%s], A+(B+C) keeps [%s]", identString(abc1), identString(abc2))
 			}
 			// every order of three gives the same membership
 			cb, _ := merged(C, B, opts)
